@@ -471,9 +471,11 @@ class _ChildrenList(_TaskList):
         :raises RuntimeError: if WBS integrity lost (i.e. task with same ID already exists)
         """
         _check_not_none(task, 'Task')
+        if type(index) is not int:
+            raise RuntimeError(f"Unsupported index type {type(index)}")
         task.parent = self.__parent
-        if len(self) > 0:
-            self.move(task, before=self[index])
+        self._list.remove(task)
+        self._list.insert(index, task)
 
     def move(self, tasks: Union['Task', Iterable['Task']], before: Optional['Task'] = None,
              after: Optional['Task'] = None) -> None:
